@@ -1341,8 +1341,9 @@ func classify(in *Input, p *Presented, q *Req, got, want bool, problem string) m
 		sig["effect"] = map[bool]string{true: "caller-matched-by-pattern-of-other-name", false: "own-name-not-matched"}[callerIsNearMiss(in, p)]
 		return sig
 	}
-	sig["kind"] = "precedence-removal"
+	sig["kind"] = "decision-mismatch"
 	if len(in.Ixns) == 2 {
+		sig["kind"] = "precedence-removal"
 		s := sortedIxns(in)
 		hi, lo := fromStruct(s[0]), fromStruct(s[1])
 		sig["higher_source"], sig["lower_source"] = srcShape(hi), srcShape(lo)
@@ -2068,10 +2069,10 @@ func main() {
 		g.malformed(1500)
 		g.store(1500)
 	} else {
-		g.exhaustive(2, 3, 9)
-		g.random(1200, 3, names)
-		g.malformed(350)
-		g.store(300)
+		g.exhaustive(2, 3, 12)
+		g.random(1200, 4, names)
+		g.malformed(300)
+		g.store(240)
 	}
 	// run (bounded parallelism)
 	var wg sync.WaitGroup
